@@ -418,7 +418,7 @@ func (fr *Frame) havocItem(m string, ctx *EvalCtx, st *State) {
 		g := vc.parseType(m[6:len(m)-1], ctx.pkg)
 		set := map[string]bool{}
 		fr.typeCells(g.Go, set)
-		for k := range set {
+		for _, k := range sortedKeys(set) {
 			vc.havocKey(st, k, vc.compSort[k])
 		}
 		return
@@ -428,7 +428,7 @@ func (fr *Frame) havocItem(m string, ctx *EvalCtx, st *State) {
 		g := vc.parseType(m[4:len(m)-1], ctx.pkg)
 		set := map[string]bool{}
 		fr.typeCells(g.Go, set)
-		for k := range set {
+		for _, k := range sortedKeys(set) {
 			h0 := vc.comp(st, k, vc.compSort[k])
 			vc.havocKey(st, k, vc.compSort[k])
 			h1 := vc.comp(st, k, vc.compSort[k])
@@ -440,7 +440,7 @@ func (fr *Frame) havocItem(m string, ctx *EvalCtx, st *State) {
 		g := vc.parseType(m[4:len(m)-1], ctx.pkg)
 		set := map[string]bool{}
 		fr.mapKeys(g.Go, set)
-		for k := range set {
+		for _, k := range sortedKeys(set) {
 			vc.havocKey(st, k, vc.compSort[k])
 		}
 		return
@@ -722,7 +722,7 @@ func (fr *Frame) appendOp(st *State, tS types.Type, s *Term, tT types.Type, t *T
 	}
 	// general case: havoc element cells and constrain by quantified facts
 	old := st.clone()
-	for key := range cells {
+	for _, key := range sortedKeys(cells) {
 		vc.havocKey(st, key, vc.compSort[key])
 	}
 	fr.assumeAppendGeneral(st, old, et, s, t, res, cells)
@@ -779,7 +779,7 @@ func (fr *Frame) assumeAppendGeneral(st, old *State, et types.Type, s, t, res *T
 	vc.assume(st.guard, leaf(fmt.Sprintf("(forall ((pi Int)) (=> (and (<= 0 pi) (< pi (s.len %s))) %s))", s, mkAnd(c1...))))
 	vc.assume(st.guard, leaf(fmt.Sprintf("(forall ((pi Int)) (=> (and (<= 0 pi) (< pi (s.len %s))) %s))", t, mkAnd(c2...))))
 	// frame: cells outside the result's new part are unchanged
-	for key := range cells {
+	for _, key := range sortedKeys(cells) {
 		h0, h1 := vc.comp(old, key, vc.compSort[key]), vc.comp(st, key, vc.compSort[key])
 		vc.assume(st.guard, leaf(fmt.Sprintf("(forall ((fa Int)) (! (=> (not (= (base fa) (base (s.arr %s)))) (= (select %s fa) (select %s fa))) :pattern ((select %s fa))))", res, h1, h0, h1)))
 	}
@@ -792,13 +792,13 @@ func (fr *Frame) copyOp(st *State, tD types.Type, d, s *Term) *Term {
 	cells := map[string]bool{}
 	fr.typeCells(et, cells)
 	old := st.clone()
-	for key := range cells {
+	for _, key := range sortedKeys(cells) {
 		vc.havocKey(st, key, vc.compSort[key])
 	}
 	var c1 []*Term
 	fr.cellPairs(st, old, et, leaf(fmt.Sprintf("(selem %s pi)", d)), leaf(fmt.Sprintf("(selem %s pi)", s)), &c1)
 	vc.assume(st.guard, leaf(fmt.Sprintf("(forall ((pi Int)) (=> (and (<= 0 pi) (< pi %s)) %s))", n, mkAnd(c1...))))
-	for key := range cells {
+	for _, key := range sortedKeys(cells) {
 		h0, h1 := vc.comp(old, key, vc.compSort[key]), vc.comp(st, key, vc.compSort[key])
 		vc.assume(st.guard, leaf(fmt.Sprintf("(forall ((fa Int)) (! (=> (not (= (base fa) (base (s.arr %s)))) (= (select %s fa) (select %s fa))) :pattern ((select %s fa))))", d, h1, h0, h1)))
 	}
@@ -862,7 +862,7 @@ func (fr *Frame) runDefers(x *ssa.RunDefers, st *State) {
 		for k := range sub.st {
 			keys[k] = true
 		}
-		for k := range keys {
+		for _, k := range sortedKeys(keys) {
 			nv := sub.st[k]
 			ov := vc.comp(before, k, vc.compSort[k])
 			if !same(nv, ov) {
